@@ -183,6 +183,18 @@ def boost_images2(spec, rng, cls):
         add("Client", "x86_64", checksums=dict(reversed(list(cks.items()))))
     elif cls == 3:
         add("Workstation", "x86_64", unified=True, additional_variants=["Server", "Client", "A", "server", "Client", "10", "9"][:rng.randint(3, 7)])
+    elif cls == 4:
+        # TWINS in one cell: distinct paths (and mtime / size), the SAME seven identity attributes and the SAME checksums - legal (only
+        # differing checksums are refused) - on a manifest whose header version makes `Images.add` run its uniqueness scan (>= 1.1)
+        spec["version"] = rng.choice(["1.2", "1.1", "2.0"])
+        base = FIM.gen_image(rng, k, "Twins", "x86_64", t)
+        base["disc_number"], base["disc_count"] = 4000 + len(spec["pool"]), 9000
+        for j, name in enumerate(["zz-latest", "a-22", "M-copy", "0-first"][:rng.randint(2, 4)]):
+            tw = copy.deepcopy(base)
+            tw["path"] = "Twins/x86_64/images/%s.%s" % (name, base["format"])
+            tw["mtime"], tw["size"] = 1000 + j, 5 + j
+            spec["pool"].append(tw)
+            spec["adds"].append(["Twins", "x86_64", len(spec["pool"]) - 1])
     return spec
 
 
@@ -347,9 +359,17 @@ def features(fmt, spec):
         idx = [x[2] for x in spec["adds"]]
         if len(set(idx)) < len(idx):
             f.append("im:one object filed in several cells")
+        for v, d in cells.items():
+            for a, c in d.items():
+                ids = [json.dumps([FIM.identity7(spec["pool"][i]), spec["pool"][i]["checksums"]], sort_keys=True, default=str) for i in c]
+                if len(set(ids)) < len(ids) and spec.get("version") not in ("0.0", "1.0"):
+                    f.append("im:twins in one cell (equal identity and checksums, distinct paths), header >= 1.1")
     elif fmt == "treeinfo":
         if _u3(v["key"] for v in spec["variants"]):
             f.append("ti:top-level variant dict >=3 unsorted")
+        uids = [v["uid"] for v in spec["variants"]]
+        if len(set(uids)) < len(uids):
+            f.append("ti:two top-level variants with one UID")
         for v, parent in FTI.all_variants(spec["variants"]):
             uids = [k["uid"] for k in v["variants"]]
             if _u3(uids):
@@ -497,7 +517,7 @@ class Workers(object):
 class C08(Prop):
     id = "C08"
     lean_module = "ProductMD.Properties.C08"
-    quick_budget = 540
+    quick_budget = 470
     thorough_budget = 2400
     rule = ("per case one content x k construction orders (seeded shuffles of every unordered container) x S hash seeds in separate "
             "interpreter processes x 1-3 dumps: all byte strings equal, equal to the Lean model's rendering of every order; JSON text = "
@@ -505,8 +525,10 @@ class C08(Prop):
             "dumps as modelled; non-trivial = distinct content with >= 2 orders")
     assumptions = ["CPython dict/set iteration order is a function of insertion history and hash seed (covered in the theorems by quantifying "
                    "over all rearrangements)", "json.load is the inverse of the modelled printer (layout oracle)"]
-    partial = {"C08_perm_treeinfo": "full for main_variant = None or the container key of a top-level variant (TI.MainVariantTop); a UID / dashed "
-               "path designating a child is resolved by a first-match scan and is outside the theorem (covered by correspondence)",
+    partial = {"C08_perm_treeinfo": "full for EVERY main_variant under the side condition that siblings are told apart by key and by UID at "
+               "every level (TI.c8Siblings); without the UID part the statement is false - two top-level variants of one UID and "
+               "main_variant = that UID give order-dependent bytes (C08_treeinfo_shared_uid_witness, finding F44); for main_variant None or a "
+               "top-level key the UID part is not needed (C08_perm_treeinfo_top_key)",
                "C08_perm_manifests": "stated on the stored mapping (JEq payloads). For add HISTORIES: proved that two accepted calls at "
                "different [variant][arch][key] addresses commute up to dict order (C08_manifests_updates_commute, C08_rpms_adds_commute, "
                "C08_modules_adds_commute); missing for whole histories: the congruence JEq s s' -> JEq (add s a).1 (add s' a).1 (and the "
@@ -540,7 +562,7 @@ class C08(Prop):
             spec = FIM.gen(rng, tier, version=rng.choice(["1.2", "1.2", "1.1", "0.0", "2.0"]))
             if i % 8 <= 2:
                 spec = boost_images(spec, rng)
-            elif i % 8 <= 6:
+            else:
                 spec = boost_images2(spec, rng, i % 8 - 3)
         elif fmt == "treeinfo":
             spec, mv = FTI.gen(rng, tier)
@@ -548,6 +570,17 @@ class C08(Prop):
                 spec = boost_treeinfo(spec, rng)
             elif i % 8 <= 6:
                 spec = boost_treeinfo2(spec, rng, i % 8 - 3)
+            elif i % 16 == 7:
+                # two top-level variants that share ONE UID (legal: a top-level UID is not validated; types variant/addon keep their
+                # sections apart) and main_variant = that UID: resolved by a first-match UID scan (C08_treeinfo_shared_uid_witness, F44)
+                have = set(v["key"] for v in spec["variants"])
+                ids = [x for x in ("Xs", "Ys") if x not in have]
+                if len(ids) == 2:
+                    uid = "Sh-ared%d" % rng.randrange(10)
+                    for vid, typ in zip(ids, rng.choice([("variant", "addon"), ("addon", "optional")])):
+                        spec["variants"].append({"key": vid, "id": vid, "uid": uid, "name": "N " + vid, "type": typ,
+                                                 "paths": [["packages", "pkgs-" + vid], ["repository", "repo-" + vid]], "variants": []})
+                    mv = uid
         elif fmt == "discinfo":
             spec = FDI.gen(rng, tier)
             if i % 3 == 0:                              # >= 3 disc numbers, not ascending, one repeated (caller-ordered content)
@@ -644,8 +677,16 @@ class C08(Prop):
                     new["compose"]["respin"] = 77
                     new["compose"]["id"] = new["compose"]["id"] + ".77"
                     new["release"]["version"] = "9.9"
+                    for nv in new["variants"][:2]:
+                        nv["name"] = nv["name"] + " (renamed)"
+                        if "zz-arch" not in nv["arches"]:
+                            nv["arches"] = nv["arches"] + ["zz-arch"]
+                        nv["paths"].setdefault("os_tree", {})["zz-arch"] = "%s/zz-arch/os" % nv["uid"]
                 elif fmt == "treeinfo":
                     new["release"]["version"] = "9.9"
+                    for nv in new["variants"][:2]:
+                        nv["name"] = nv["name"] + " (renamed)"
+                        nv["paths"] = [p_ for p_ in nv["paths"] if p_[0] != "debug_packages"] + [["debug_packages", "changed/debug"]]
                     new["tree"]["build_timestamp"] = 424242
                     new["tree"]["platforms"] = sorted(set(new["tree"]["platforms"]) | set(["zz-new", "AA-new"]), reverse=True)
                 elif fmt == "discinfo":
@@ -753,7 +794,7 @@ class C08(Prop):
                 return []
             return [{"op": "ti_dumps", "args": {"spec": FTI.model_tree_spec(sp), "main_variant": mv}} for _, mv, sp in self._seq_keys(a)]
         reqs = []
-        for s in a["orders"][:3]:
+        for s in a["orders"][:(3 if self.tier == "thorough" else 2)]:      # the model renders the base order and 1 (thorough: 2) rearranged orders
             spec = permute(fmt, a["spec"], s)
             if fmt == "composeinfo":
                 reqs.append({"op": "composeinfo_dumps", "args": {"spec": FCI.strip_parent(spec)}})
@@ -831,7 +872,7 @@ class C08(Prop):
             hs, order, before, after = real_out["states"][0]
             if any(o != real_out["first"] for o in state["outs"]):
                 return {"real": "every dump = the first text", "model": [(_excerpt(o, real_out["first"]) if isinstance(o, str) else o) for o in state["outs"]]}
-            if after is not None and state["after"] != after:
+            if after is not None and state["after"] != dict((k, after[k]) for k in ("version", "layered") if k in after):
                 return {"real": {"object after the dumps": after}, "model": {"object after the dumps": state["after"]}}
         return None
 
@@ -888,7 +929,8 @@ class C08(Prop):
             exp = expected_after(fmt, before)
             if after != exp:
                 return {"kind": "state", "observed": {"hashseed": hs, "order": order, "after": after},
-                        "required": {"after": exp, "why": "a dump may only set header.version and a layered variant's release.is_layered"}}
+                        "required": {"after": exp, "why": "a dump may only set header.version and a layered variant's release.is_layered; every other public "
+                                                                "attribute (content_sha: the adapter's full snapshot) stays as it was"}}
         if real_out.get("issues"):
             # rebuilding the SAME content through another public idiom (remove + re-add) was refused by the container itself
             return {"kind": "container-op-raised", "observed": real_out["issues"][0],
